@@ -142,6 +142,7 @@ PROPS = {
         "assumptions": ["modem MTU >= 3", "every received fragment owns its buffer"],
         "units": [
             {"name": "c12.mtcp-sequences", "pkg": MTCP, "test": "TestVerifC12MTCPSequences", "shards_t": 8, "shards_q": 2},
+            {"name": "c12.mtcp-concurrent", "pkg": MTCP, "test": "TestVerifC12MTCPConcurrent", "shards_t": 8, "shards_q": 2},
             {"name": "c12.mtcp-cut", "pkg": MTCP, "test": "TestVerifC12MTCPCut"},
             {"name": "c12.bbc-singles", "pkg": BBC, "test": "TestVerifC12BBCSingles", "shards_t": 8},
             {"name": "c12.bbc-multi", "pkg": BBC, "test": "TestVerifC12BBCMulti", "shards_t": 8},
@@ -196,6 +197,7 @@ PROPS = {
         "assumptions": ["cron jobs are unregistered and played as explicit events"],
         "units": [
             {"name": "c14.groups", "pkg": ROUTING, "test": "TestVerifC14Groups", "shards_t": 16, "shards_q": 4, "crash_is_violation": True},
+            {"name": "c14.concurrent-stress", "pkg": ROUTING, "test": "TestVerifC14Stress", "shards_t": 4, "shards_q": 2, "crash_is_violation": True},
         ],
     },
     "C05": {
